@@ -26,6 +26,7 @@
  *   ext <sig-hex> <to|-> <ver> <key-hex> <reply-hex>        KSI_Signature_extendTo
  *   vcal <sig-hex> - <ver> <key-hex> <reply-hex>            calendar-based verification (the extender's reply through the file transport)
  *   tree <alg> <n> <md every m>   tree builder: n leaves (every m-th with metadata), close, every leaf's chain
+ *   parts <sig-hex>               signature builder: a new signature from the parts of a parsed one (chains, calendar chain, records), closed
  *   build <sig-hex> <level>       signature builder: open from a signature, close at a level
  *   pubf <hex> <time>             publications file: parse, latest / nearest publication, certificate by id
  *   pubs <string>                 publication string: fromBase32, toBase32
@@ -48,6 +49,7 @@
 #include <ksi/net_uri.h>
 #include <ksi/impl/ctx_impl.h>
 #include <ksi/impl/net_impl.h>
+#include <ksi/impl/signature_impl.h>
 #include <ksi/pkitruststore.h>
 #include <ksi/policy.h>
 #include <ksi/hmac.h>
@@ -418,6 +420,28 @@ cleanup:
 	return res;
 }
 
+/* a signature put together from parts (the builder makes the signature's element tree itself when it is closed) */
+static int run_parts(Env *e, char *out) {
+	int res; size_t i; KSI_SignatureBuilder *b = NULL; KSI_Signature *ns = NULL; unsigned char *ser = NULL; size_t sl = 0;
+	res = KSI_SignatureBuilder_open(e->ctx, &b); if (res != KSI_OK) goto cleanup;
+	for (i = 0; i < KSI_AggregationHashChainList_length(e->sig->aggregationChainList); i++) {
+		KSI_AggregationHashChain *c = NULL;
+		res = KSI_AggregationHashChainList_elementAt(e->sig->aggregationChainList, i, &c); if (res != KSI_OK) goto cleanup;
+		res = KSI_SignatureBuilder_addAggregationChain(b, c); if (res != KSI_OK) goto cleanup;
+	}
+	if (e->sig->calendarChain) { res = KSI_SignatureBuilder_setCalendarHashChain(b, e->sig->calendarChain); if (res != KSI_OK) goto cleanup; }
+	if (e->sig->calendarAuthRec) { res = KSI_SignatureBuilder_setCalendarAuthRecord(b, e->sig->calendarAuthRec); if (res != KSI_OK) goto cleanup; }
+	if (e->sig->publication) { res = KSI_SignatureBuilder_setPublication(b, e->sig->publication); if (res != KSI_OK) goto cleanup; }
+	if (e->sig->rfc3161) { res = KSI_SignatureBuilder_setRFC3161(b, e->sig->rfc3161); if (res != KSI_OK) goto cleanup; }
+	res = KSI_SignatureBuilder_close(b, 0, &ns); if (res != KSI_OK) goto cleanup;
+	res = KSI_Signature_serialize(ns, &ser, &sl); if (res != KSI_OK) goto cleanup;
+	put_digest(out, fnv(FNV0, ser, sl), sl);
+cleanup:
+	if (res != KSI_OK && ns != NULL) snprintf(out, 64, "RESULT-WITH-ERROR");
+	KSI_free(ser); KSI_Signature_free(ns); KSI_SignatureBuilder_free(b);
+	return res;
+}
+
 static int run_pubf(Env *e, char *out) {
 	int res; KSI_PublicationsFile *pf = NULL; KSI_PublicationRecord *a = NULL, *b = NULL; KSI_Integer *t = NULL; unsigned long long h = FNV0;
 	KSI_PublicationData *pd = NULL; KSI_Integer *pt = NULL; char *s = NULL; size_t sl = 0;
@@ -569,7 +593,7 @@ static const struct op { const char *name; int minargs; int (*setup)(Env *); int
 	{ "lst", 1, su_none, run_lst }, { "tlvp", 1, su_blob, run_tlvp }, { "list", 1, su_none, run_list }, { "tlv", 1, su_blob, run_tlv }, { "el", 1, su_blob, run_el }, { "sig", 1, su_blob, run_sig },
 	{ "ver", 2, su_ver, run_ver }, { "areq", 3, su_areq, run_areq }, { "ereq", 3, su_ereq, run_ereq }, { "sign", 5, su_sign, run_sign },
 	{ "ext", 5, su_ext, run_ext }, { "tree", 3, su_none, run_tree }, { "build", 2, su_sig, run_build }, { "pubf", 2, su_blob, run_pubf },
-	{ "pubs", 1, su_none, run_pubs }, { "hmac", 3, su_hmac, run_hmac }, { "async", 4, su_async, run_async }, { "ha", 4, su_async, run_ha }, { "bsig", 3, su_none, run_bsig }, { "vcal", 5, su_ext, run_vcal },
+	{ "pubs", 1, su_none, run_pubs }, { "hmac", 3, su_hmac, run_hmac }, { "async", 4, su_async, run_async }, { "ha", 4, su_async, run_ha }, { "bsig", 3, su_none, run_bsig }, { "vcal", 5, su_ext, run_vcal }, { "parts", 1, su_sig, run_parts },
 };
 
 /* one experiment: new context and inputs, the operation under the armed fault(s), the repeat, everything freed */
